@@ -1,5 +1,5 @@
 (* C06 driver.  Request: "<ip|ble|coap> <event> <event> ..." with events
-     S<n>.<cont>  N  R<i>  O<i>  F<k>  C  X  T  D  RC  RD  EN  ER<i>  EF<k>  EC
+     S<n>.<cont>  W<n>.<cont>.<j>  N  R<i>  O<i>  F<k>  C  X  T  D  RC  RD  EN  ER<i>  EF<k>  EC
    (RC and RD are both Reconnect: the model gives every new pair-verify, resumed or full, a new epoch)
    Answer: "seal=e.d.n,...;wire=...;open=e.d.n.ok,...;acc=...;out=e.id.class,..."
    (logs oldest first; out sorted by request number) *)
@@ -17,6 +17,10 @@ let ev_of_tok t =
     (match Stdlib.String.split_on_char '.' (Stdlib.String.sub t 1 (len - 1)) with
      | [n; c] -> Send (nat_of_int (int_of_string n), nat_of_int (int_of_string c))
      | _ -> failwith "send")
+  else if t.[0] = 'W' then
+    (match Stdlib.String.split_on_char '.' (Stdlib.String.sub t 1 (len - 1)) with
+     | [n; c; j] -> SendW (nat_of_int (int_of_string n), nat_of_int (int_of_string c), nat_of_int (int_of_string j))
+     | _ -> failwith "sendw")
   else if t.[0] = 'R' then Replay (num t 1)
   else if t.[0] = 'O' then ReplayOld (num t 1)
   else if t.[0] = 'F' then Future (num t 1)
